@@ -325,8 +325,37 @@ def stmt_of(ff: FuncFlow, node: ast.AST) -> Optional[ast.stmt]:
   return ff.module.enclosing_stmt(node)
 
 
+def lt_form(t: ast.AST) -> Optional[Tuple[ast.AST, bool, ast.AST]]:
+  """(small, strict, big) for a single-operator ordering comparison, whichever way round it is written:
+  a < b, b > a -> (a, True, b);  a <= b, b >= a -> (a, False, b)."""
+  if isinstance(t, ast.Compare) and len(t.ops) == 1:
+    op, l, r = t.ops[0], t.left, t.comparators[0]
+    if isinstance(op, ast.Lt):
+      return l, True, r
+    if isinstance(op, ast.LtE):
+      return l, False, r
+    if isinstance(op, ast.Gt):
+      return r, True, l
+    if isinstance(op, ast.GtE):
+      return r, False, l
+  return None
+
+
 def guards_of(ff: FuncFlow, node: ast.AST) -> List[Tuple[ast.AST, bool]]:
-  """(test, polarity) of enclosing if/ifexp/while conditions of `node`."""
+  """(test, polarity) of enclosing if/ifexp/while conditions of `node`.
+
+  Tests are reported in positive form: `not c`, `a is not b`, `a != b`, `a not in b` become (c | a is b | a == b | a in b) with
+  the polarity flipped - so `if x is not None: S` guards S by (x is None, False)."""
+  from fjsa.canon import _positive
+  raw = _guards_raw(ff, node)
+  out = []
+  for t, pol in raw:
+    t2, sw = _positive(t)
+    out.append((t2, (not pol) if sw else pol))
+  return out
+
+
+def _guards_raw(ff: FuncFlow, node: ast.AST) -> List[Tuple[ast.AST, bool]]:
   out = []
   m = ff.module
   child = node
